@@ -11,7 +11,8 @@ ITEM_POOL = ["ab", "a c", "b-á", "c", "aa", "bb", "漢a", "A1/b", "abc", " a", 
 def make_cfg(rng, disabled=None):
     return sessions.Cfg(layout=rng.choice(["default", "reverse", "reverse-list"]), cycle=rng.random() < 0.5,
                         multi=rng.choice([None, 1, 2, 3, "inf", "inf"]), scroll_off=rng.choice([None, 0, 1, 5]),
-                        inputless=rng.random() < 0.1, disabled=(rng.random() < 0.4) if disabled is None else disabled)
+                        inputless=rng.random() < 0.1, disabled=(rng.random() < 0.4) if disabled is None else disabled,
+                        track=rng.random() < 0.35)
 
 
 def random_steps(rng, n, multi):
@@ -40,7 +41,8 @@ def random_steps(rng, n, multi):
         if r < 0.92:
             return rng.choice(["change-multi", "change-multi(0)", "change-multi(1)", "change-multi(2)", "change-multi(5)"])
         return rng.choice(["toggle-sort", "up+up+up", "down+down", "toggle+down", "select-all+up", "exclude", "exclude", "exclude-multi",
-                           "toggle+up+exclude", "select-all+exclude"])
+                           "toggle+up+exclude", "select-all+exclude", "toggle-track", "toggle-track-current", "track-current",
+                           "untrack-current", "track-current+up", "toggle-track+down"])
     keys = list(sessions.KEYMAP.keys())
     moves = ["backward-char", "backward-char+backward-char", "beginning-of-line", "backward-word", "forward-char", "end-of-line",
              "beginning-of-line+forward-char", "beginning-of-line+forward-word"]
@@ -113,8 +115,8 @@ def run_session(ctx, fzf, sid, cfg, items, steps, width, height):
 
 def run(ctx):
     # (1) exhaustive model checking of the design: query-line actions and list/selection actions
-    for cfgname in (["MC_Editor.cfg", "MC_EditorList_a.cfg"] if ctx.quick else
-                    ["MC_Editor.cfg", "MC_EditorList_a.cfg", "MC_EditorList_b.cfg", "MC_EditorList_c.cfg"]):
+    for cfgname in (["MC_Editor.cfg", "MC_EditorList_a.cfg", "MC_EditorTrack.cfg"] if ctx.quick else
+                    ["MC_Editor.cfg", "MC_EditorList_a.cfg", "MC_EditorTrack.cfg", "MC_EditorList_b.cfg", "MC_EditorList_c.cfg"]):
         ctx.mc("MC_Editor", cfgname, timeout=1200, workers=8)
     # (2) stimuli: behaviours simulated by TLC from the spec (every modelled action) + seeded random chains / real keys
     nsim = ctx.pick(12, 120)
@@ -177,7 +179,7 @@ def run(ctx):
             sid, cfg.describe(), r["k"], r.get("act", r.get("kind", "")),
             json.dumps({k: r[k] for k in r if k in ("pre", "post", "texts", "orig", "arg")}, ensure_ascii=False))
         case = {"session": {"cfg": {"layout": cfg.layout, "cycle": cfg.cycle, "multi": cfg.multi, "scroll_off": cfg.scroll_off,
-                                    "inputless": cfg.inputless, "disabled": cfg.disabled, "extra": cfg.extra},
+                                    "inputless": cfg.inputless, "disabled": cfg.disabled, "extra": cfg.extra, "track": cfg.track},
                             "items": items, "steps": steps, "width": w, "height": h}, "record": r}
         kf = classify(r)
         if kf:
@@ -205,7 +207,7 @@ def run(ctx):
             ctx.sample({k: r[k] for k in ("act", "arg", "pre", "post")})
             if len(ctx.cov["samples"]) >= 4:
                 break
-    ctx.assumptions += ["--track, jump mode, mouse, multi-line items and --gap are not modelled; sessions do not use them",
+    ctx.assumptions += ["jump mode, mouse, multi-line items, --gap and --tac are not modelled; sessions do not use them",
                         "queries and items are drawn from the FzfChars symbol table (incl. non-ASCII, wide)"]
     return "model_checking"
 
